@@ -1,0 +1,19 @@
+//go:build verif
+// +build verif
+
+package mpegts
+
+// VerifNewFrame builds a Frame with every field given, including the
+// unexported key flag, so that the verification harness can drive
+// Writer.WriteMpegtsFrame directly.  Compiled only with -tags verif.
+func VerifNewFrame(pid, streamID int, dts, pts int64, header, payload []byte, key bool) *Frame {
+	return &Frame{
+		Pid:      pid,
+		StreamID: streamID,
+		Dts:      dts,
+		Pts:      pts,
+		Header:   header,
+		Payload:  payload,
+		key:      key,
+	}
+}
